@@ -82,8 +82,12 @@ def injectivity_obligations():
     info = {}
     for shape, (cls, fields) in SHAPES.items():
         eng = engine(fields)
-        ext, r1 = run_symbolic(eng, cls, fields, "1")
-        _, r2 = run_symbolic(eng, cls, fields, "2")
+        try:
+            ext, r1 = run_symbolic(eng, cls, fields, "1")
+            _, r2 = run_symbolic(eng, cls, fields, "2")
+        except Unsupported as e:
+            info.setdefault("unsupported", []).append(f"{shape}: {e}")
+            continue
         info["sha"], info["lines"], info["path"] = ext.sha, ext.lines, ext.path
         readable1 = [r for r in r1 if isinstance(r[1], (str, SStr))]
         readable2 = [r for r in r2 if isinstance(r[1], (str, SStr))]
